@@ -9,6 +9,8 @@ plus nestings through `include`).  Three oracles:
   mirror  reference-free: the results of two devices A and B are compared with each other - a perfect matching
           between A's peers for B and B's peers for A in which addr is an address put on the other side's interface,
           remote_as == the other side's local_as, families / vrf / session options are equal;
+  shared  one MeshExecutor (and storage) serving all devices of the topology, in every order of the devices (<= 3
+          devices; three orders otherwise): each device gets exactly what a fresh executor gives it;
   order   every registration variant gives the same normalised BgpConfig and the same interface operations (peers and
           concatenated tuples as multisets), or all variants are refused with ValueError / MergeForbiddenError.
 Part B (merger laws).  Every merger class and every field of every BaseMeshModel subclass of annet.mesh: pair laws and
@@ -360,6 +362,25 @@ def run_impl(topo, desc, dev):
             "order": [[p.hostname, p.addr] for p in cfg.peers]}
 
 
+def run_impl_shared(topo, desc, order):
+    """ONE executor and ONE storage for all devices, execute_for called in `order` (as a generator run over a fabric
+    does) -> {dev: result as run_impl gives it}"""
+    from annet.mesh import MeshExecutor
+    st, devs = build_storage(topo)
+    ex = MeshExecutor(build_registry(desc), st)
+    res = {}
+    for dev in order:
+        before = len(devs[dev].log)
+        try:
+            cfg = ex.execute_for(devs[dev])
+        except Exception as e:  # noqa
+            res[dev] = {"status": "error", "exc": type(e).__name__, "msg": str(e)[:300]}
+            continue
+        res[dev] = {"status": "ok", "cfg": norm_config(cfg), "ops": devs[dev].log[before:],
+                    "order": [[p.hostname, p.addr] for p in cfg.peers]}
+    return res
+
+
 # ---------------------------------------------------------------------------------------------------
 # registration variants
 def variants(rules):
@@ -662,6 +683,23 @@ def check_case(topo, rules, full=True):
     mout, mc = judge_mirror(topo, rules, impl0, exps)
     out.extend(mout)
     counters.update(mc)
+    # one executor serving the whole fabric, devices in several orders: every device must get what a fresh executor gives
+    devs_ = list(topo["devices"])
+    orders = list(itertools.permutations(devs_)) if len(devs_) <= 3 else [tuple(devs_), tuple(reversed(devs_)), tuple(devs_[1:] + devs_[:1])]
+    for order in (orders if full else orders[:2]):
+        shared = run_impl_shared(topo, vs[0][1], order)
+        evals += len(order)
+        for dev in order:
+            a, b = impl0[dev], shared[dev]
+            if a["status"] != b["status"] or (a["status"] == "ok" and (a["cfg"] != b["cfg"] or _ops_multiset(a["ops"]) != _ops_multiset(b["ops"]))):
+                if a["status"] == "error" and b["status"] == "error":
+                    continue
+                out.append(({"kind": "shared-executor-differs", "kinds": _kinds(rules),
+                             "what": "status" if a["status"] != b["status"] else ("config" if a["cfg"] != b["cfg"] else "interface-ops")},
+                            "device %s after %r on one MeshExecutor: %s; with a fresh executor: %s"
+                            % (dev, list(order[:order.index(dev)]), _first_diff(a.get("cfg"), b.get("cfg")) if a["status"] == b["status"] == "ok" else (a["status"], b["status"]),
+                               "ops %r vs %r" % (a.get("ops"), b.get("ops")) if a.get("cfg") == b.get("cfg") else "")))
+                break
     if full:
         for label, desc in vs[1:]:
             for dev in topo["devices"]:
